@@ -50,6 +50,7 @@ class World:
         self.ext = None
         self.calls = []  # (kind, name) trace of interpreted callees
         self._seen_modules = set()
+        self.class_state = {}
         self._pending_modules = []
 
     def add_class(self, cls):
@@ -184,7 +185,18 @@ class World:
         ext["__getitem__"] = self.get_item
         ext["__bool__"] = self.truth
         ext["__module_env__"] = self.module_env
+        ext["__class_state__"] = self.class_state
         self.ext = ext
+        for cname, cls in self.classes.items():  # class-level constants / containers: one object per class, shared by all instances
+            if cname in self.class_state:
+                continue
+            st_ = self.class_state.setdefault(cname, {})
+            for aname, vnode in (getattr(cls, "attrs", None) or {}).items():
+                if _is_plain_state(vnode):
+                    try:
+                        st_[aname] = Interp(dict(self.module_env), {}, self.region, externals=ext).eval(vnode)
+                    except Exception:  # noqa: BLE001
+                        pass
         while self._pending_modules:  # module-level containers / constants of the interpreted modules (shared state)
             self.load_globals(self._pending_modules.pop())
         return ext
